@@ -125,8 +125,8 @@ PROPS["C16"] = dict(
                  "that whatever it returns is true",
                  "reference solves that end without a verdict are C01/C03's business and are skipped here (counted)"],
     min_nontrivial=dict(quick=600, thorough=20000),
-    stages=[dict(name="float", target="c16", quick=dict(cases=800, maxsize=80), thorough=dict(cases=4000, maxsize=100)),
-            dict(name="exact", target="c16", x=dict(mode="exact"), quick=dict(cases=50, maxsize=70, timeout=2400), thorough=dict(cases=300, maxsize=100))],
+    stages=[dict(name="float", target="c16", quick=dict(cases=2500, maxsize=80), thorough=dict(cases=4000, maxsize=100)),
+            dict(name="exact", target="c16", x=dict(mode="exact"), quick=dict(cases=120, maxsize=70, timeout=2400), thorough=dict(cases=300, maxsize=100))],
 )
 
 PROPS["C05"] = dict(
